@@ -755,8 +755,11 @@ def rule_R7(ctx, f):
         b = f.bodies[k]
         if "::push::" in b.path or "process_collector" in b.path or "registry" in b.path:
             continue
-        sn = [c for c in b.calls_to(["MetricFamily::set_name"])]
-        sh = [c for c in b.calls_to(["MetricFamily::set_help"])]
+        if b.path.startswith("<prometheus::proto::") or b.path.startswith("<prometheus::plain_model::") or b.path.startswith("prometheus::proto::") or b.path.startswith("prometheus::plain_model::"):
+            continue        # the model's own (derived) Clone / Default
+        from pvrules.rules import field_sets
+        sn = field_sets(b, "MetricFamily", "name", ["MetricFamily::set_name"])
+        sh = field_sets(b, "MetricFamily", "help", ["MetricFamily::set_help"])
         if not sn and not sh:
             continue
         ctx.saw(b)
